@@ -270,7 +270,8 @@ func formatInto(sb *strings.Builder, format string, args []string) (int, error) 
 			j := 0
 			for ; j < max && i+j < len(format); j++ {
 				c := format[i+j]
-				if (c >= '0' && c <= '9') ||
+				if (c >= '0' && c <= '7') ||
+					(hex && c >= '8' && c <= '9') ||
 					(hex && c >= 'a' && c <= 'f') ||
 					(hex && c >= 'A' && c <= 'F') {
 					// valid octal or hex char
@@ -284,6 +285,8 @@ func formatInto(sb *strings.Builder, format string, args []string) (int, error) 
 		}
 		c := format[i]
 		switch {
+		case len(fmts) > 0 && c == '\\':
+			return 0, fmt.Errorf("invalid format char: %c", c)
 		case c == '\\': // escaped
 			i++
 			if i >= len(format) {
@@ -311,8 +314,8 @@ func formatInto(sb *strings.Builder, format string, args []string) (int, error) 
 				sb.WriteByte(c)
 			case '0', '1', '2', '3', '4', '5', '6', '7':
 				digits := readDigits(3, false)
-				// if digits don't fit in 8 bits, 0xff via strconv
-				n, _ := strconv.ParseUint(digits, 8, 8)
+				// three octal digits fit in 9 bits; like bash, keep the low 8
+				n, _ := strconv.ParseUint(digits, 8, 16)
 				sb.WriteByte(byte(n))
 			case 'x', 'u', 'U':
 				i++
@@ -337,12 +340,17 @@ func formatInto(sb *strings.Builder, format string, args []string) (int, error) 
 				}
 				fallthrough
 			default: // no escape sequence
+				// Keep the backslash and handle the character as usual,
+				// so that "\%s" still expands the directive.
 				sb.WriteByte('\\')
-				sb.WriteByte(c)
+				i--
 			}
 		case len(fmts) > 0:
 			switch c {
 			case '%':
+				if len(fmts) > 1 {
+					return 0, fmt.Errorf("invalid format char: %c", c)
+				}
 				sb.WriteByte('%')
 				fmts = nil
 			case 'c':
